@@ -287,8 +287,8 @@ pub(crate) struct BlockFacts {
 fn covers_basic(f: &BlockFacts, nmax: usize) {
     kani::cover!(f.n == nmax && f.p == Some(nmax));
     kani::cover!(f.n == nmax && f.p.is_none());
-    kani::cover!(f.n >= 1 && f.qr == f.r0);
-    kani::cover!(f.n >= 1 && f.qlen == 0);
+    kani::cover!(nmax == 0 || (f.n >= 1 && f.qr == f.r0));
+    kani::cover!(nmax == 0 || (f.n >= 1 && f.qlen == 0));
 }
 
 fn covers_full(f: &BlockFacts, nmin: usize, nmax: usize) {
